@@ -20,6 +20,8 @@ pub struct GenCfg {
     pub actions: Vec<ActionKind>,
     /// number of distinct output file names available to file actions
     pub file_pool: usize,
+    /// which slice of the file-name vocabulary (relative, absolute, nested, ...) this run uses
+    pub file_base: usize,
     /// emit -threads N / -depth in front
     pub leading_options: bool,
     /// emit a global option in the middle of the expression
@@ -86,7 +88,10 @@ pub fn pattern(pool_index: usize) -> String {
 }
 
 pub fn out_file(i: usize) -> String {
-    const NAMES: [&str; 6] = ["out.txt", "list0", "big.lst", "user_files.txt", "r-2.out", "F"];
+    const NAMES: [&str; 14] = [
+        "out.txt", "list0", "/tmp/out.txt", "big.lst", "/var/tmp/scan/list.0", "user_files.txt", "./rel.out", "r-2.out",
+        "sub/dir.lst", "/tmp/out.txt.1", "../up.txt", "F", "/dev/stdout", "/x",
+    ];
     NAMES[i % NAMES.len()].to_string()
 }
 
@@ -266,7 +271,7 @@ pub fn format_string(rng: &mut Rng, cfg: &GenCfg, newline: bool) -> String {
 }
 
 fn action_text(rng: &mut Rng, cfg: &GenCfg, kind: ActionKind) -> String {
-    let file = out_file(rng.usize_below(cfg.file_pool.max(1)));
+    let file = out_file(cfg.file_base + rng.usize_below(cfg.file_pool.max(1)));
     let q = *rng.pick(&["\"", "'"]);
     match kind {
         ActionKind::Print => "-print".into(),
